@@ -14,8 +14,13 @@ func (Engine) Generate(r *core.Rng, property, tier string) *core.Plan {
 	g := &gen{r: r, p: p, prop: property}
 	if property == "C32" || r.Bool(0.2) {
 		// emergency policy: one actor's address is frozen from some height on
-		p.SetKnob("frozen", int64(r.Intn(6)))
+		p.SetKnob("frozen", int64(r.Intn(10)))
 		p.SetKnob("frozenh", p.Knob("maturity", 2)+3+int64(r.Intn(14)))
+	}
+	if property == "C03" || property == "C05" || r.Bool(0.25) {
+		// script actors: key-less addresses behind malformed redeem scripts
+		p.SetKnob("weird", int64(r.Range(1, 4)))
+		p.SetKnob("weirdpick", int64(r.Intn(1000)))
 	}
 	n := r.Range(12, 45)
 	if tier == "thorough" {
@@ -57,12 +62,12 @@ func (Engine) Generate(r *core.Rng, property, tier string) *core.Plan {
 	}
 	// a short funding prologue so several actors own mature outputs
 	for i := int64(0); i < p.Knob("maturity", 2); i++ {
-		g.p.Add(Step{Op: "mine", Block: &BlockSpec{Miner: r.Intn(6)}})
+		g.p.Add(Step{Op: "mine", Block: &BlockSpec{Miner: r.Intn(10)}})
 	}
 	for i := 0; i < 3; i++ {
 		// actor 0 holds the genesis allocation and spreads it
-		t := TxSpec{From: 0, InSel: []int{0}, To: []int{1 + r.Intn(5), 1 + r.Intn(5), r.Intn(6)}, Split: []int{r.Range(50, 300), r.Range(50, 300), r.Range(50, 300)}}
-		g.p.Add(Step{Op: "mine", Block: &BlockSpec{Miner: r.Intn(6), Txs: []TxSpec{t}}})
+		t := TxSpec{From: 0, InSel: []int{0}, To: []int{1 + r.Intn(5), 1 + r.Intn(5), r.Intn(10)}, Split: []int{r.Range(50, 300), r.Range(50, 300), r.Range(50, 300)}}
+		g.p.Add(Step{Op: "mine", Block: &BlockSpec{Miner: r.Intn(10), Txs: []TxSpec{t}}})
 	}
 	for i := 0; i < n; i++ {
 		g.step()
@@ -82,12 +87,12 @@ type gen struct {
 
 func (g *gen) goodTx() TxSpec {
 	r := g.r
-	t := TxSpec{From: r.Intn(6), InSel: []int{r.Intn(8)}}
+	t := TxSpec{From: r.Intn(10), InSel: []int{r.Intn(8)}}
 	if r.Bool(0.3) {
 		t.InSel = append(t.InSel, r.Intn(8))
 	}
 	for k := r.Range(1, 3); k > 0; k-- {
-		t.To = append(t.To, r.Intn(6))
+		t.To = append(t.To, r.Intn(10))
 		t.Split = append(t.Split, r.Range(1, 600))
 	}
 	if r.Bool(0.3) {
@@ -137,7 +142,7 @@ func (g *gen) tx() TxSpec {
 
 func (g *gen) block() *BlockSpec {
 	r := g.r
-	b := &BlockSpec{Miner: r.Intn(6), Dt: r.Intn(600)}
+	b := &BlockSpec{Miner: r.Intn(10), Dt: r.Intn(600)}
 	for k := r.Pick(2, 4, 3, 2, 1); k > 0; k-- {
 		b.Txs = append(b.Txs, g.tx())
 	}
@@ -169,7 +174,7 @@ func (g *gen) block() *BlockSpec {
 // mutStep: a valid block of 1..12 transactions and a set of single mutations.
 func (g *gen) mutStep() Step {
 	r := g.r
-	b := &BlockSpec{Miner: r.Intn(6), Dt: r.Intn(600)}
+	b := &BlockSpec{Miner: r.Intn(10), Dt: r.Intn(600)}
 	for k := r.Range(0, 11); k > 0; k-- {
 		b.Txs = append(b.Txs, g.goodTx())
 	}
